@@ -260,6 +260,14 @@ func backendCfg(b string) string {
 	switch b {
 	case "condgate":
 		return "cond(gate,gate)"
+	case "replicagate": // wrappers that read the source themselves before handing it on
+		return "replica(gate,gate)"
+	case "shardgate":
+		return "shard(gate,gate)"
+	case "nsgate":
+		return "namespace(gate)"
+	case "packedgate":
+		return "blobpacked(gate,gate)"
 	}
 	return b
 }
@@ -326,8 +334,11 @@ func (r *runner) offer(id int, o Offer) {
 	var hookMu sync.Mutex
 	lch := make(chan blob.Ref, 64)
 	targets := []any{sto, wrapper}
+	// sub-stores of a fan-out wrapper are fed through blobserver.ReceiveNoHash and announce the blob on their OWN hubs:
+	// that is internal traffic; what clients of the configured store can observe is the top-level hub
+	fanout := map[string]bool{"replicagate": true, "shardgate": true, "nsgate": true, "packedgate": true}
 	for _, n := range sys.Nodes {
-		if n != sto {
+		if n != sto && !fanout[o.Backend] {
 			targets = append(targets, n)
 		}
 	}
